@@ -41,14 +41,22 @@ fn num(r: &mut Rng, d: u32) -> Value {
     if d == 0 || r.chance(1, 2) {
         return if r.chance(2, 3) { col(*r.pick(&[1usize, 8])) } else { let t = tame(); lit(t[r.below(t.len() as u64) as usize].clone()) };
     }
-    bin(*r.pick(&["add", "sub", "mul", "div"]), num(r, d - 1), num(r, d - 1))
+    arith(r, d - 1)
+}
+/// f64 arithmetic; a divisor is always a non-zero literal (x/0 and 0/0 would create inf / NaN whose sign and payload are hardware- and
+/// compiler-defined — outside what the model's float parameter is compared on)
+fn arith(r: &mut Rng, d: u32) -> Value {
+    let op = *r.pick(&["add", "sub", "mul", "div"]);
+    let a = num(r, d);
+    let b = if op == "div" { let t = tame(); lit(t[r.below(t.len() as u64) as usize].clone()) } else { num(r, d) };
+    bin(op, a, b)
 }
 fn side_f64(r: &mut Rng, d: u32) -> Value {
     match r.below(6) {
         0 | 1 => col(*r.pick(&[0usize, 6])),
         2 => col(*r.pick(&[1usize, 8])),
         3 | 4 => { let s = specials(); lit(s[r.below(s.len() as u64) as usize].clone()) }
-        _ => bin(*r.pick(&["add", "sub", "mul", "div"]), num(r, d), num(r, d)),
+        _ => arith(r, d),
     }
 }
 fn cmp(r: &mut Rng, d: u32) -> Value {
@@ -82,7 +90,7 @@ fn boolean(r: &mut Rng, d: u32) -> Value {
         3..=5 => bin("or", boolean(r, d - 1), boolean(r, d - 1)),
         6 | 7 => json!({"un": ["not", boolean(r, d - 1)]}),
         8 => between(r, 2),
-        9 if r.chance(1, 2) => r.pick(&[json!({"un": ["isnull", col(0)]}), bin("eq", col(7), lit(json!({"s": "a"}))), json!({"inlist": [col(2), [lit(json!({"i": 1})), lit(json!({"i": 2}))], false]}), col(0)]).clone(),
+        9 if r.chance(1, 2) => r.pick(&[json!({"un": ["isnull", col(0)]}), bin("eq", col(7), lit(json!({"s": "a"}))), json!({"inlist": [col(2), [lit(json!({"i": 1})), lit(json!({"i": 2}))], false]})]).clone(),
         _ => cmp(r, 2),
     }
 }
